@@ -27,9 +27,20 @@ PROFILES = {
     "plain3":   dict(N=3, L=1, cap=0, head=1, manual=0, pay=0, ctx=3, feat=""),
     "tour2":    dict(N=2, L=1, cap=1, head=1, manual=0, pay=0, ctx=0, feat="H"),      # constants of spec/MC_tour.cfg: replays tours of the model graph
     "all4":     dict(N=4, L=2, cap=4, head=1, manual=1, pay=4, ctx=2, feat="AG", std="c++17"),
+    # wide machines: every property's monitors also at state counts where the halved state list is deep, ids need 7 / 8 bits,
+    # the serial buffer grows to two bytes and the plan storage is large (the enumerated families use first / middle / last id)
+    "wide64":   dict(N=64, L=2, cap=3, head=1, manual=0, pay=1, ctx=0, feat="PSHG", spread=1, nosim=1),
+    "wide128":  dict(N=128, L=3, cap=0, head=0, manual=1, pay=3, ctx=1, feat="PSHG", spread=1, nosim=1),
+    "wide255":  dict(N=255, L=2, cap=4, head=1, manual=1, pay=0, ctx=0, feat="PSHGV", spread=1, nosim=1, dev=1),
+    "wide17":   dict(N=17, L=2, cap=0, head=0, manual=0, pay=2, ctx=3, feat="PSHG", spread=1),
+    "wide33":   dict(N=33, L=4, cap=5, head=1, manual=1, pay=4, ctx=2, feat="PSHGV", spread=1, nosim=1),
+    "wide129":  dict(N=129, L=2, cap=2, head=1, manual=0, pay=0, ctx=0, feat="PSH", spread=1, nosim=1),
+    "wide200":  dict(N=200, L=2, cap=0, head=0, manual=1, pay=1, ctx=1, feat="PSHG", spread=1, nosim=1, dev=1),
 }
 
-QUICK_PROFILES = ["core3", "core3dev", "peer4m", "tiny2v", "inj3m", "sparse5", "one1v", "big9", "man3", "nolog3", "plain3", "all4", "tour2"]
+QUICK_PROFILES = ["core3", "core3dev", "peer4m", "tiny2v", "inj3m", "sparse5", "one1v", "big9", "man3", "nolog3", "plain3", "all4", "tour2",
+                  "wide64", "wide128", "wide255"]
+THOROUGH_PROFILES = QUICK_PROFILES + ["wide17", "wide33", "wide129", "wide200"]
 
 
 def feat_has(p, c):
@@ -48,6 +59,14 @@ def gen_random(seed, count, nops, scenarios=(0, 1, 2, 3), kinds=0xFFFF, pct=35):
     return "\n".join(lines) + "\n"
 
 
+def _states(p):
+    """the states the enumerated families range over: the first three, or - for wide machines - first, middle and last id"""
+    N = p["N"]
+    if p.get("spread") and N > 3:
+        return [0, N // 2, N - 1]
+    return list(range(min(N, 3)))
+
+
 def _activate(p, logger=0, fill=0):
     ls = ["reset", "@0 ctor %d 7 %d" % (fill, logger)]
     if p.get("manual"):
@@ -64,7 +83,7 @@ def gen_guard_enum(p, rng, limit):
     N, L = p["N"], p["L"]
     rounds = min(L + 1, 3)
     plans = feat_has(p, "P")
-    states = list(range(min(N, 3)))
+    states = _states(p)
     dec = ["pass", "exitX", "entryX"] + ["entryT%d" % e for e in states] + ["entryXT%d" % e for e in states] + ["exitT%d" % e for e in states]
     cases = []
     for a in states[:2]:
@@ -124,7 +143,7 @@ def gen_guard_enum(p, rng, limit):
 def gen_activation_enum(p, rng, limit):
     """redirects and vetoes during activation (initial entry guards)"""
     N, L = p["N"], p["L"]
-    states = list(range(min(N, 3)))
+    states = _states(p)
     head = p.get("head", 1)
     dec = ["pass", "X"] + ["T%d" % e for e in states] + ["XT%d" % e for e in states]
     if head:
@@ -174,7 +193,7 @@ def gen_plan_enum(p, rng, limit):
     if not feat_has(p, "P"):
         return ""
     N = p["N"]
-    states = list(range(min(N, 3)))
+    states = _states(p)
     tasks = [(o, d) for o in states for d in states]
     plans = [()] + [(t,) for t in tasks] + [(t, u) for t in tasks for u in tasks] + \
             [(t, u, v) for t in tasks[:4] for u in tasks[2:6] for v in tasks[4:]]
@@ -219,7 +238,7 @@ def gen_plan_directed(p, rng, limit):
     if not feat_has(p, "P"):
         return ""
     N = p["N"]
-    states = list(range(min(N, 3)))
+    states = _states(p)
     out = []
     n = 0
     for a in states:
@@ -349,7 +368,7 @@ def scenarios_for(pname, p, tier, seed, exe=None):
     sc.append(("capacity", gen_capacity(p, rng, 3 if q else 20)))
     sc.append(("serial", gen_serial_pairs(p, rng, 30 if q else 120)))
     sc.append(("lifecycle", gen_lifecycle(p, rng, 12 if q else 60)))
-    if exe is not None:
+    if exe is not None and not p.get("nosim"):
         # specification -> code: behaviours of FFSM2.tla drawn by TLC at this profile's constants, replayed on the real machine
         import simgen
         text, info = simgen.sim_script(pname, simgen.profile_cfg(exe), 15 if q else 150, 200 if q else 400, seed)
@@ -368,7 +387,7 @@ def pool_key(tier, seed, names):
 
 def run_pool(tier, seed, names=None, force=False):
     """build, run and validate; returns the result dict (also cached on disk)"""
-    names = list(names or QUICK_PROFILES)
+    names = list(names or (QUICK_PROFILES if tier == "quick" else THOROUGH_PROFILES))
     key = pool_key(tier, seed, names)
     cdir = vlib.ensure(os.path.join(vlib.WORK, "pool", key))
     rfile = os.path.join(cdir, "result.json")
